@@ -94,6 +94,15 @@ func histString(ops []HOp) string {
 // processing order (late records, clock steps) - order means processing order.
 func tsIdx(i int) int { return i ^ 1 }
 
+// resultOf: the audit result of operation i - every third record reports a
+// failure (a failed credential disposal ends a session like any other).
+func resultOf(i int) string {
+	if i%3 == 2 {
+		return "fail"
+	}
+	return "success"
+}
+
 // userIdx: one session in three logs in as the same account, from the same
 // address, to the same host as session 0 - as happens when one person opens
 // several connections; those identities differ only in the sshd pid.
@@ -396,7 +405,7 @@ func (x apiExec) run(plan Plan, ops []HOp) *histResult {
 			}
 			res.err[i] = tr.RemoteLogin(common.RemoteUserLogin{
 				Source: identityEvent(op.K, plan.Pid[op.K], at), PID: plan.Pid[op.K],
-				CredUserID: fmt.Sprintf("cred%d@example.com", op.K)})
+				CredUserID: fmt.Sprintf("cred%d@example.com", userIdx(op.K, plan.Pid[op.K]))})
 		case opRec:
 			res.err[i] = tr.AuditdEvent(vlib.APIEvent(plan.Sid[op.K], auparse.AUDIT_LOGIN, strconv.Itoa(plan.Pid[op.K]), ts, seq, "success"))
 		case opEv, opExec:
@@ -410,9 +419,9 @@ func (x apiExec) run(plan Plan, ops []HOp) *histResult {
 			if strings.HasPrefix(op.Typ, "USER_") && op.Typ != "USER_CMD" || strings.HasPrefix(op.Typ, "CRED_") {
 				epid = plan.Pid[op.K]
 			}
-			res.err[i] = tr.AuditdEvent(vlib.APIEvent(plan.Sid[op.K], t, strconv.Itoa(epid), ts, seq, "success"))
+			res.err[i] = tr.AuditdEvent(vlib.APIEvent(plan.Sid[op.K], t, strconv.Itoa(epid), ts, seq, resultOf(i+1)))
 		case opCD:
-			res.err[i] = tr.AuditdEvent(vlib.APIEvent(plan.Sid[op.K], auparse.AUDIT_CRED_DISP, strconv.Itoa(cdPid(plan.Pid[op.K], i)), ts, seq, "success"))
+			res.err[i] = tr.AuditdEvent(vlib.APIEvent(plan.Sid[op.K], auparse.AUDIT_CRED_DISP, strconv.Itoa(cdPid(plan.Pid[op.K], i)), ts, seq, resultOf(i)))
 		case opNoSess:
 			res.err[i] = tr.AuditdEvent(vlib.APIEvent("", pickType(i), sessionlessPid(plan, op, i), ts, seq, "success"))
 		case opUnset:
@@ -537,7 +546,7 @@ func (rawExec) run(plan Plan, ops []HOp) (*histResult, error) {
 		seq++
 		switch op.Kind {
 		case opLogin:
-			ok = sendLogin(common.RemoteUserLogin{Source: identityEvent(op.K, plan.Pid[op.K], time.Now().UTC()), PID: plan.Pid[op.K], CredUserID: fmt.Sprintf("cred%d@example.com", op.K)})
+			ok = sendLogin(common.RemoteUserLogin{Source: identityEvent(op.K, plan.Pid[op.K], time.Now().UTC()), PID: plan.Pid[op.K], CredUserID: fmt.Sprintf("cred%d@example.com", userIdx(op.K, plan.Pid[op.K]))})
 		case opRec:
 			ok = send(vlib.AuLogin(ts, seq, strconv.Itoa(plan.Pid[op.K]), plan.Sid[op.K]))
 		case opEv:
@@ -550,7 +559,11 @@ func (rawExec) run(plan Plan, ops []HOp) (*histResult, error) {
 			ok = send(vlib.ExecSpec{TSms: ts, Seq: seq, PID: plan.Pid[op.K] + 10000, Ses: plan.Sid[op.K], Success: "yes",
 				Exe: "/usr/bin/ls", Args: []string{"ls", "-l", fmt.Sprintf("/tmp/%d", i)}, Paths: []string{"/usr/bin/ls"}, Cwd: "/root"}.Lines()...)
 		case opCD:
-			ok = send(vlib.AuUser("CRED_DISP", ts, seq, cdPid(plan.Pid[op.K], i), plan.Sid[op.K], "PAM:setcred", "success"))
+			rt := "success"
+			if resultOf(i) == "fail" {
+				rt = "failed"
+			}
+			ok = send(vlib.AuUser("CRED_DISP", ts, seq, cdPid(plan.Pid[op.K], i), plan.Sid[op.K], "PAM:setcred", rt))
 		case opNoSess:
 			ok = send(vlib.AuUser("USER_CMD", ts, seq, 77, "", "PAM:x", "success"))
 		case opUnset:
@@ -690,6 +703,9 @@ func randHistory(rng *vlib.Rng, o randOpts) (Plan, []HOp) {
 	for k := 0; k < o.nsess; k++ {
 		var q []HOp
 		ne := rng.Intn(o.maxEvents + 1)
+		if rng.Chance(2) {
+			ne = 260 + rng.Intn(300) // a busy session: hundreds of records, possibly all held
+		}
 		q = append(q, HOp{Kind: opRec, K: k})
 		for e := 0; e < ne; e++ {
 			if o.exec && rng.Chance(30) {
